@@ -787,3 +787,31 @@ Proof.
          (Some [FVal (GBool false)]).
   split; [exact toy_env_laws|]. repeat split; vm_compute; reflexivity.
 Qed.
+
+(** * The classes [col_matches] and [fval_ok] exclude are genuine counterexamples *)
+
+(** MEDIUMINT UNSIGNED through the binlog: the decoder hands back an int32 sign-extended from 24 bits,
+    8388608 comes back as 4286578688 (the column's metadata would be needed to undo it). *)
+Theorem mediumint_unsigned_binlog_refuted :
+  exists e d x s,
+    env_laws e /\ desc_ok d = true /\ fval_ok e d x = true /\
+    repr e (ColInt 24 true) PBinlog (valuer d (dyn_of d x)) = Some s /\
+    x = FVal (GInt 8388608) /\ scanner e d s = Ok (FVal (GInt 4286578688)).
+Proof.
+  exists toy_env, (mk_desc (BUint 32) false TNone), (FVal (GInt 8388608)), (SInt 32 (-8388608)).
+  split; [exact toy_env_laws|]. repeat split; vm_compute; reflexivity.
+Qed.
+
+(** A non-nil *[]byte pointing at a nil slice comes back pointing at an empty slice; a non-nil
+    *sql.NullString that is not Valid comes back as a nil pointer. *)
+Theorem pointer_to_nil_payload_refuted :
+  exists e d1 d2 s1 s2,
+    env_laws e /\ desc_ok d1 = true /\ desc_ok d2 = true /\
+    repr e ColBlob PProto (valuer d1 (dyn_of d1 (FVal (GBytes None)))) = Some s1 /\
+    scanner e d1 s1 = Ok (FVal (GBytes (Some ""%string))) /\
+    repr e ColBlob PProto (valuer d2 (dyn_of d2 (FVal (GBytes None)))) = Some s2 /\
+    scanner e d2 s2 = Ok FNil.
+Proof.
+  exists toy_env, (mk_desc BBytes true TNone), (mk_desc (BCustom CNull) true TNone), (SBytes ""), SNull.
+  split; [exact toy_env_laws|]. repeat split; vm_compute; reflexivity.
+Qed.
